@@ -3,7 +3,7 @@ import Pog.Model.ClientGen
 open Lean Pog Pog.Drv Pog.ClientGen
 namespace Pog.Drv
 
-def clientGenFns : List String := ["cgTagTuples", "cgTagTuplesTotal", "cgMockTuples", "cgVisit", "cgMock", "cgCanonical"]
+def clientGenFns : List String := ["cgTagTuples", "cgTagTuplesTotal", "cgMockTuples", "cgVisit", "cgMock", "cgCanonical", "cgTagAttr"]
 
 private def jtupleCG (t : TagTuple) : Json := Json.arr #[jstr t.tag, jstr t.cls, jstr t.module]
 
@@ -32,6 +32,7 @@ def clientGenRun (f : String) (a : Array Json) (u : UInfo) : Except String Json 
   | "cgTagTuples" => pure (jopt (jlist jtupleCG) (tagTuplesRaw u (← getList getStrs (← argN a 0))))
   | "cgTagTuplesTotal" => pure (jlist jtupleCG (tagTuples u (← getList getStrs (← argN a 0))))
   | "cgMockTuples" => pure (jlist jtupleCG (mockTuples u (← getList getStrs (← argN a 0))))
+  | "cgTagAttr" => pure (jstr (tagAttr (← getStr (← argN a 0))))   -- `ClientVisitor._tag_attr_name`
   | "cgCanonical" => pure (jstr (canonicalTag u (← getList getStrs (← argN a 0)) (← getStr (← argN a 1))))
   | "cgVisit" =>
     -- [tags of every operation, core package name, generated package name | null]
